@@ -55,13 +55,16 @@ P("C03", [f"{RQ}:_comes_before", f"{RQ}:_contains", f"{RQ}:arg_prune_partition",
           f"{RQ}:CSRReader.get_spans", f"{RQ}:CSRReader.__call__",
           f"{RQ}:FillLowerRangeQuery2D.__init__", f"{RQ}:DirectRangeQuery2D.__init__",
           f"{SEL}:_IndexingMixin._process_slice", f"{SEL}:_IndexingMixin._unpack_index",
-          f"{SEL}:RangeSelector2D.__getitem__", f"{SEL}:RangeSelector2D.fetch", f"{API}:matrix", f"{API}:Cooler.matrix"],
+          f"{SEL}:RangeSelector2D.__getitem__", f"{SEL}:RangeSelector2D.fetch", f"{API}:matrix", f"{API}:Cooler.matrix",
+          f"{RQ}:concat", f"{RQ}:transpose", f"{RQ}:spmatrix_slice_from_dict", f"{RQ}:array_slice_from_dict",
+          f"{RQ}:frame_slice_from_dict", f"{RQ}:BaseRangeQuery2D.get", f"{RQ}:BaseRangeQuery2D.to_sparse_matrix",
+          f"{RQ}:BaseRangeQuery2D.to_array", f"{RQ}:BaseRangeQuery2D.to_frame"],
   "bounded/C03.py",
   "Proof: every obligation generated from the real source of the range-query engine (case split of "
   "FillLowerRangeQuery2D, CSRReader row loop with column mask and reflection, span pruning, slice normalisation) is "
   "discharged for all windows, all n, all chunk sizes; the exactly-once lemma C03-L1 is a postcondition of the real "
   "constructors over the contracts of get_spans and CSRReader.__call__.",
-  unverified=["BaseRangeQuery2D.get/to_array/to_sparse_matrix/to_frame (concatenation of the per-box reads; scipy/pandas constructors)",
+  unverified=["scipy.sparse.coo_matrix / toarray and pandas.DataFrame constructors (assumed by structural stubs)", "to_sparse_array / to_delayed / to_dask_frame (optional dependencies)",
               "the _slice/_fetch closures built by Cooler.matrix (their single calls are covered by the Cooler.matrix contract)"])
 
 P("C04", [f"{RQ}:_region_to_extent", f"{RQ}:region_to_extent", f"{RQ}:region_to_offset", "cooler.api:Cooler.extent",
